@@ -7,7 +7,7 @@ import random
 import vlib
 
 BASE = dict(Uris='{"u1"}', Texts='{"t1","t2"}', MaxMsgs=3, MsgKinds='{"open","change","close"}', MaxCfg=0,
-            MaxDisk=0, OnDisk='{}', EnableReindex='FALSE', InitOpen='{}', Outside='{}', CfgAddsLib='FALSE')
+            MaxDisk=0, OnDisk='{}', EnableReindex='FALSE', InitOpen='{}', Outside='{}', CfgAddsLib='FALSE', RenameClears='FALSE')
 
 CONFIGS = {
     # name: (overrides, max schedules replayed quick, thorough)
@@ -25,13 +25,15 @@ CONFIGS = {
     "S2i": (dict(Texts='{"t1","t2"}', MsgKinds='{"change","close","cfg"}', MaxCfg=1, MaxDisk=0, OnDisk='{}', MaxMsgs=2, InitOpen='{"u1"}'), 800, None),
     "S6": (dict(Texts='{"t1","t2"}', MsgKinds='{"open","change","close"}', MaxMsgs=3, Outside='{"u1"}'), 400, None),
     "S6c": (dict(Texts='{"t1","t2"}', MsgKinds='{"change","close","cfg"}', MaxCfg=1, MaxMsgs=2, Outside='{"u1"}', CfgAddsLib='TRUE', InitOpen='{"u1"}'), 400, None),
+    "S7": (dict(Uris='{"u1","u2"}', Texts='{"t1"}', MsgKinds='{"open","close","rename"}', MaxMsgs=3, OnDisk='{"u1"}', RenameClears='TRUE'), 400, None),
+    "S7x": (dict(Uris='{"u1","u2"}', Texts='{"t1","t2"}', MsgKinds='{"open","change","close","rename"}', MaxMsgs=4, OnDisk='{"u1"}', RenameClears='TRUE'), None, 5000),
     "S2n": (dict(Texts='{"t1"}', MsgKinds='{"open","close","cfg"}', MaxCfg=1, MaxDisk=1, OnDisk='{}', MaxMsgs=3), 300, None),
 }
 
 PLAN = {
     "C27": {"quick": ["S1", "S1d", "S6"], "thorough": ["S1", "S1d", "S6", "S1x", "S1u2"]},
     "C29": {"quick": ["S2", "S2n", "S2i", "S6c", "S5"], "thorough": ["S2", "S2n", "S2i", "S6c", "S5", "S5d", "S2c", "S5x"]},
-    "C30": {"quick": ["S4", "S1", "S5"], "thorough": ["S4", "S1", "S5", "S5d", "S4x", "S2", "S5x"]},
+    "C30": {"quick": ["S4", "S1", "S5", "S7"], "thorough": ["S4", "S1", "S5", "S7", "S5d", "S4x", "S2", "S5x", "S7x"]},
 }
 
 
@@ -156,8 +158,8 @@ def run(ctx, prop):
         ctx.note("config_" + name, {"constants": consts, "states": res.distinct, "quiescent_behaviours": len(sched),
                                     "model_violations": len(bad), "replayed": len(chosen)})
         for s in sched:
-            d0 = s["hist"][0]["st"]["disk"] if s["hist"][0]["a"] != "disk" else None
-            if d0 is not None and s.get("disk") == d0:      # scripts without disk writes only
+            d0 = s["disk0"]
+            if not any(h["a"] == "disk" for h in s["hist"]) and not any(m["kind"] == "rename" for m in s["script"]):
                 scripts_seen.setdefault(json.dumps([s["script"], d0, s.get("reindex", False)], sort_keys=True), None)
         for s, o in zip(chosen, outs):
             replayed += 1
